@@ -31,6 +31,10 @@ func VerifSetNote(f func(site string, v any)) { verifhook.SetNote(f) }
 // VerifSetOrder installs the callback that decides the order in which the gatherer walks its set of networks.
 func VerifSetOrder(f func(site string, keys []string)) { verifhook.SetOrder(f) }
 
+// VerifSetPick installs the callback that chooses among alternatives that are ready at the same time
+// (a cancelled submission whose hand-off to the loop is possible too).
+func VerifSetPick(f func(site string, n int) int) { verifhook.SetPick(f) }
+
 type verifSeededRand struct {
 	mu sync.Mutex
 	r  *rand.Rand
